@@ -9,6 +9,7 @@
     binds every absorbed field ([cdi_fields_bound]: acceptance of two different statements with one
     proof exhibits a hash collision). *)
 From Coq Require Import List NArith ZArith Bool Lia Field Ring.
+From CB Require Import Crypto.Alg Crypto.AlgPairing Crypto.Transcript Crypto.SigmaGeneric Crypto.SigmaCodec Crypto.IdCdiComplete.
 From CB Require Import Crypto.Shamir Crypto.ElGamalExp Crypto.IdShamirProofs Crypto.IdPipeline Crypto.IdPipelineProofs.
 Import ListNotations.
 
@@ -121,7 +122,9 @@ Theorem revoker_points_distinct : forall r x y, (2 ^ 32 <= r)%Z -> (0 < x < 2 ^ 
 Proof. exact ar_points_distinct. Qed.
 Print Assumptions revoker_points_distinct.
 
-(** Completeness of the composed credential proof, RELATIVE to the completeness of its parts (named
+(** (Kept from the first delivery; superseded by [cdi_complete_partial] below, which discharges the
+    three sigma-protocol hypotheses with the C07 lemmas.)
+    Completeness of the composed credential proof, RELATIVE to the completeness of its parts (named
     hypotheses): com_mult (regId), com_eq_sig (provider's signature), one com_enc_eq per revoker, the
     range proof for a true statement, the account-ownership signatures.  What is proved here is the
     composition: AndAdapter(AndAdapter(com_mult, com_eq_sig), ReplicateAdapter(com_enc_eq..)) under one
@@ -147,7 +150,7 @@ Section C08_Complete.
   Variable acc_verify : Msg -> SigT -> bool.
   Hypothesis acc_sig_complete : forall m, acc_verify m (acc_sign m) = true.
 
-  Theorem cdi_complete_partial :
+  Theorem cdi_composition_complete_abstract :
     forall (threshold : nat) prefix pub encM (w : (W1 * W2) * list W3) (rho : (R1 * R2) * list R3)
            (counter max_accounts : Z) (msg : Msg),
       s_rel Chal _ _ _ _ com_mult (fst (fst w)) -> s_rel Chal _ _ _ _ com_eq_sig (snd (fst w)) ->
@@ -160,7 +163,7 @@ Section C08_Complete.
                   prefix pub encM w rho)
         (range_verify (range_prove counter max_accounts)) (acc_verify msg (acc_sign msg)) = true.
   Proof. intros; eapply cdi_complete_partial_thm; eassumption. Qed.
-  Print Assumptions cdi_complete_partial.
+  Print Assumptions cdi_composition_complete_abstract.
 
   (** A threshold different from the number of sharing-coefficient commitments is refused whatever
       the proofs are (the first check of [verify_cdi]). *)
@@ -170,6 +173,39 @@ Section C08_Complete.
   Proof. intros; eapply threshold_mismatch_rejected; eassumption. Qed.
   Print Assumptions cdi_threshold_mismatch_rejected.
 End C08_Complete.
+
+(** Completeness of the credential proof with the ACTUAL C07 protocols: the statement is about
+    [and_proto (and_proto com_mult com_eq_sig) (rep_proto com_enc_eq)] (SigmaGeneric.v adapters,
+    Sigma_com_mult / Sigma_com_eq_sig / Sigma_com_enc_eq instances) under the legacy transcript; the
+    sigma part is closed by C07's [com_mult_complete_], [ces_complete_], [com_enc_eq_complete_],
+    [and_complete_], [rep_complete_], [prove_verify_complete_].  Remaining hypotheses (hence PARTIAL):
+    the range proof verifies for a true statement (C11) and account-key signatures verify. *)
+Section C08_CompleteC07.
+  Context (K : FieldOps) (KL : FieldLaws K) (P : PairOps K) (PL : PairLaws P) (MC : ModOps K) (MLC : ModLaws MC)
+          (Cd1 : CodecOps (PM1 P)) (Cd2 : CodecOps (PM2 P)) (CdT : CodecOps (PMT P)) (CdC : CodecOps MC).
+  Variable H : Transcript.bytes -> Transcript.bytes.
+  Variable sfb : Transcript.bytes -> K.
+  Variables RangeProof SigT Msg : Type.
+  Variable range_prove : Z -> Z -> RangeProof.
+  Variable range_verify : RangeProof -> bool.
+  Hypothesis range_complete : forall a b, counter_ok a b = true -> range_verify (range_prove a b) = true.
+  Variable acc_sign : Msg -> SigT.
+  Variable acc_verify : Msg -> SigT -> bool.
+  Hypothesis acc_sig_complete : forall m, acc_verify m (acc_sign m) = true.
+
+  Theorem cdi_sigma_complete :
+    SigmaGeneric.complete (cdi_proto Cd1 Cd2 CdT CdC) (cdi_rel Cd1 Cd2 CdT CdC) (cdi_rok Cd1 Cd2 CdT CdC).
+  Proof. exact (cdi_sigma_complete_ Cd1 Cd2 CdT CdC). Qed.
+  Print Assumptions cdi_sigma_complete.
+
+  Theorem cdi_complete_partial : forall (threshold : nat) ctx s w r (counter max_accounts : Z) (msg : Msg),
+    cdi_rel Cd1 Cd2 CdT CdC s w -> cdi_rok Cd1 Cd2 CdT CdC s r -> (counter <= max_accounts)%Z ->
+    exists pi st, SigmaGeneric.prove H sfb (cdi_proto Cd1 Cd2 CdT CdC) Legacy ctx s w r = Some (pi, st)
+      /\ verify_cdi_c07 Cd1 Cd2 CdT CdC H sfb threshold threshold ctx s pi
+           (range_verify (range_prove counter max_accounts)) (acc_verify msg (acc_sign msg)) = true.
+  Proof. intros; eapply cdi_complete_c07_; eassumption. Qed.
+  Print Assumptions cdi_complete_partial.
+End C08_CompleteC07.
 
 (** The transcript of [verify_cdi] (domain "credential"; cred_values; address; global_context; the
     [public] data of com_mult, com_eq_sig and of every com_enc_eq, in the order and with the legacy
